@@ -70,7 +70,32 @@ Theorem extract_doc_only :
   forall cs l, extract cs = Some l -> Forall (fun t => is_doc t = true) l.
 Proof. exact extract_doc_only_lemma. Qed.
 
+(* a documentation comment is never carried across the end of the enclosing
+   block: when the first significant token left on the buffered line is the
+   closing brace, nothing is taken and the stream is unchanged *)
+Theorem doc_not_carried_across_block_end :
+  forall (st : ts) (pre : list tok) (t : tok) (post : list tok),
+    buf st = (pre ++ t :: post)%list ->
+    Forall (fun x => tty x = T_WHITESPACE) pre ->
+    tty t = T_LIT_125 ->
+    get_doxygen_after st = (None, st).
+Proof. exact doc_not_carried_across_block_end_lemma. Qed.
+
+(* ... nor past the statement's own semicolon into a later statement on the
+   same line: when a significant token follows the semicolon, nothing is taken *)
+Theorem doc_not_carried_past_next_statement :
+  forall (st : ts) (pre : list tok) (semi : tok) (mid : list tok) (t : tok) (post : list tok),
+    buf st = (pre ++ semi :: mid ++ t :: post)%list ->
+    Forall (fun x => tty x = T_WHITESPACE) pre ->
+    Forall (fun x => tty x = T_WHITESPACE) mid ->
+    tty semi = T_LIT_59 ->
+    plain_sig t = true ->
+    get_doxygen_after st = (None, st).
+Proof. exact doc_not_carried_past_next_statement_lemma. Qed.
+
 Print Assumptions get_doxygen_spec.
+Print Assumptions doc_not_carried_across_block_end.
+Print Assumptions doc_not_carried_past_next_statement.
 Print Assumptions scan_is_block_after_a_newline.
 Print Assumptions blank_line_rule.
 Print Assumptions get_doxygen_after_spec.
